@@ -84,6 +84,9 @@ extra = {"C08": "yes: downloads after an abandoned earlier transfer on the same 
          "R16C09": "yes: 'no limit' budgets (usize::MAX, 2^40, 2^32, 2^31+5) for uploads and downloads; recorded budgets are clamped to TLC's integers",
          "R16C16": "yes: the empty key (with empty and non-empty values) in MC_LinkWrite MODE keys and in the random documents",
          "R16C19": "yes: code 0.00 in the trait-level set_code calls of MC_Views (after a payload was set)",
+         "R17C02": "yes: datagrams with 1 276 / 1 277 / 1 500 / 3 000 options followed by a real option, the marker and a payload (more options than a size-limited message could hold)",
+         "R17C07": "yes: after an error the reply holds exactly one Content-Format value (the option is not repeatable), whatever the prepared reply carried under it",
+         "R17C20": "caught at once, by a measure taken while the change was being written: the 'next use' that must reclaim is varied - a request or a pushed response on an unrelated key, a response with a Block2 option of its own, a message that gets no response, a key kept busy throughout",
          "R4C12": "yes: the two entry points of an exchange as separate steps with equal message ids on different endpoints (model MODE split, deferred responses in the mixed driver); a disturbed other key is reported under C12 in every branch",
          "C20": "yes: expiry under block-wise traffic on other keys (model `Other` now block-wise; driver scenario `expiry-traffic`)"}
 for d in sorted(glob.glob(os.path.join(ROOT, "seeded", "*", "meta.json"))):
